@@ -13,7 +13,7 @@ import random
 
 from harness import core, sysrun
 
-MODES = ("plain", "cancel", "kill", "timeout", "sbatchfail", "squeuefail", "write", "hooks", "cyclic", "local", "racing_try", "appendtimeout", "suspend", "resubmit", "scanerror")
+MODES = ("plain", "cancel", "kill", "timeout", "sbatchfail", "squeuefail", "write", "hooks", "cyclic", "local", "racing_try", "appendtimeout", "suspend", "resubmit", "scanerror", "multigroup", "suspendcancel", "interrupt")
 WRITE_SITES = ["write:job_status.json", "write:cluster_config.json", "write:config_version", "write:job_status_version",
                "write:batch_config", "write:marker_touch", "write:marker_remove", "append:processed_results.csv",
                "consolidate:processed_results.csv", "consolidate:processed_results.csv"]
@@ -37,6 +37,14 @@ def make_case(seed, mode):
             plan["actions"].append({"at": at + rng.randint(5, 60), "do": "try"})
     elif mode == "kill":
         plan["actions"] = [{"at": at, "do": "kill", "who": rng.choice(["any", "node", "submitter", "holder", "holder"])}]
+        plan["break_stale"] = rng.random() < 0.5
+    elif mode == "interrupt":
+        # Ctrl-C on a login-node submitter in the middle of a round: KeyboardInterrupt is no Exception, `finally` runs
+        plan["actions"] = [{"when": {"k": rng.choice(["sbatch", "sbatch", "sbatch", "squeue", "collect", "marker_touch"]),
+                                     "field": "k", "n": rng.randint(1, 3)}, "do": "interrupt"}]
+        sc["max_nodes"] = rng.choice([2, 3, None])
+        for g in sc["groups"]:
+            g["size"] = rng.choice([1, 1, 2])       # several batches per round: the interrupt falls between two sbatch calls
         plan["break_stale"] = rng.random() < 0.5
     elif mode == "timeout":
         plan["actions"] = [{"at": at, "do": "timeout"}]
@@ -74,10 +82,32 @@ def make_case(seed, mode):
         # the size scan of a finished job's output directory fails (dangling link): the node stops; jobs waiting for
         # that job must not start, whatever else happens
         with_deps = [j["name"] for j in sc["jobs"] if any(j["name"] in k["deps"] for k in sc["jobs"])]
-        plan["scan_error"] = rng.choice(with_deps or [j["name"] for j in sc["jobs"]])
+        victim = rng.choice(with_deps or [j["name"] for j in sc["jobs"]])
+        if rng.random() < 0.5:
+            plan["scan_error"] = victim
+        else:
+            plan["launch_error"] = victim      # Popen raises OSError: the executable is missing / not runnable
         for g in sc["groups"]:
             g["try"] = True                      # blockers and dependents in one batch as often as possible
             g["size"] = max(g["size"], 3)
+    elif mode == "multigroup":
+        # several submission groups with different parameters, blockers across groups, try-add-blocked off in some:
+        # what a round does for one group must not leak into the next, and later rounds re-read the groups from disk
+        while len(sc["groups"]) < 2:
+            g = dict(sc["groups"][0]); g["name"] = f"g{len(sc['groups'])}"; sc["groups"].append(g)
+        for i, g in enumerate(sc["groups"]):
+            g["try"] = (i % 2 == 1) if rng.random() < 0.7 else g["try"]
+            g["size"] = rng.choice([1, 2]) if i == 0 else g["size"]
+        names = [g["name"] for g in sc["groups"]]
+        for k, j in enumerate(sc["jobs"]):
+            j["group"] = names[k % len(names)]
+        sc["max_nodes"] = rng.choice([2, 3, None])
+    elif mode == "suspendcancel":
+        # a batch is suspended by the scheduler (a state jade does not map) when the user cancels: it is active and must
+        # be asked to cancel like any other
+        plan["actions"] = [{"at": at, "do": "suspend"}, {"at": at + rng.randint(1, 20), "do": "cancel"}]
+        if rng.random() < 0.5:
+            plan["actions"].append({"at": at + rng.randint(25, 60), "do": "try"})
     elif mode == "resubmit":
         # the submission completes (sometimes after losing a batch), then `jade resubmit-jobs` reruns the failed /
         # canceled / missing jobs and their dependents, and the submission runs to completion a second time
@@ -86,6 +116,25 @@ def make_case(seed, mode):
             plan["break_stale"] = True
         if not any(j.get("rc") for j in sc["jobs"]) and not plan.get("actions"):
             rng.choice(sc["jobs"])["rc"] = 2
+        if rng.random() < 0.5:
+            # a failing job with several dependents that also depend on each other, listed in reverse order: the closure
+            # of the resubmission needs more than one pass and a dependent is seen before its second blocker
+            names = [j["name"] for j in sc["jobs"]]
+            root = sc["jobs"][-1]
+            root["rc"], root["deps"] = 2, []
+            for k, j in enumerate(sc["jobs"][:-1]):
+                later = [x for x in names[k + 1:-1] if rng.random() < 0.5]
+                j["deps"] = sorted(set([root["name"]] + later))
+                j["cancel"] = rng.random() < 0.6
+                j["rc"] = 0
+        if rng.random() < 0.8:
+            # commands that succeed first and fail when they are run again: a job rerun only because its blocker is
+            # rerun can now fail, and its flagged dependents must then be canceled in the second phase as well
+            for j in sc["jobs"]:
+                if not j.get("rc") and j.get("deps") and rng.random() < 0.5:
+                    j["rc2"] = rng.choice([1, 3])
+                elif j.get("rc") and rng.random() < 0.7:
+                    j["rc2"] = 0         # the usual reason to resubmit: the failure was transient
         plan["then_resubmit"] = {"failed": True, "missing": True} if rng.random() < 0.8 else {"failed": True, "missing": False}
     return sc, plan
 
@@ -246,6 +295,14 @@ def final_oracles(sc, plan, r):
         for n in rows:
             if n not in res:
                 probs.append(("C12", "result-dropped", f"row of {n} was written but is not in the final results"))
+        # C04 on the final table, whatever happened in between (faults, resubmissions): a flagged job whose command ran
+        # to the end has no blocker whose final outcome is a failure (a rerun blocker takes its dependents with it)
+        for n, v in res.items():
+            if by.get(n, {}).get("cancel") and v[1] == "finished":
+                bad = [d for d in by[n].get("deps", []) if d in res and res[d][0] != 0]
+                if bad:
+                    probs.append(("C04", "flagged-job-finished-although-blocker-failed",
+                                  f"final results: flagged job {n} is {v} while its blocker(s) {[(d, res[d]) for d in bad]} failed"))
         if sorted(missing) != sorted(set(by) - set(res)):
             probs.append(("C12", "missing-list-wrong", f"missing {sorted(missing)} but jobs without result are {sorted(set(by) - set(res))}"))
         if summary:
@@ -305,6 +362,24 @@ def final_oracles(sc, plan, r):
             still = [x for x in ev.get("active", []) if x in (snap_ids or []) and x not in asked]
             if still:
                 probs.append(("C14", "active-batch-not-canceled", f"batches {still} active and persisted but never scancel'ed"))
+    # C14 / C05: after cancel-jobs the documented try-submit-jobs still completes the submission (nothing is active any
+    # more): results collected, the rest reported missing
+    if any(e["k"] == "mark_canceled" and e.get("ok") for e in tr) and not r["stuck"] and not complete \
+            and r["recoveries"] >= 2 and not any(e["k"] == "kill" for e in tr) and not plan.get("write_error") \
+            and not any(e["k"] == "phase2" for e in tr):
+        for p_ in ("C14", "C05"):
+            probs.append((p_, "canceled-submission-never-completes", f"the submission was canceled but is still not complete after {r['recoveries']} try-submit-jobs rounds; excs {r['excs'][:2]}"))
+    # C01: in a complete fault-free run every job was handed to the HPC in exactly one batch, or canceled by a submitter
+    if ff and acyclic(sc) and complete and not plan.get("local"):
+        handed = {}
+        for e in tr:
+            if e["k"] == "sbatch" and e.get("ok"):
+                for n, _ in e["jobs"]:
+                    handed[n] = handed.get(n, 0) + 1
+        subc = {e["job"] for e in tr if e["k"] == "sub_cancel"}
+        never = sorted(n for n in by if handed.get(n, 0) == 0 and n not in subc)
+        if never:
+            probs.append(("C01", "job-never-placed", f"jobs {never} were in no batch and were not canceled although the fault-free run completed"))
     # C11 / C12 / C14 / C08: every result a node or a submitter recorded is still on disk at the end (consolidated file or
     # a node file), whatever failed in between; a resubmission legitimately removes the rows of the jobs it reruns
     if "disk_rows" in r and not any(e["k"] == "phase2" for e in tr):
@@ -344,6 +419,10 @@ def final_oracles(sc, plan, r):
             probs.append(("C09", "status-counters", f"completed={sn['completed']} submitted={sn['submitted']} num={sn['num']} done={nd} submitted_state={ns}"))
         if any(j[2] for j in sn["jobs"] if j[1] != "not_submitted"):
             probs.append(("C09", "blocked-after-submit", "a submitted/done job has remaining blockers"))
+        if "rows" in sn and not resub:
+            norow = sorted(j[0] for j in sn["jobs"] if j[1] == "done" and j[0] not in sn["rows"])
+            if norow:
+                probs.append(("C09", "done-job-without-result", f"jobs {norow} are done in the job table but no result file holds a row for them"))
         if sn["cver"] != sn["cver_file"] or sn["jver"] != sn["jver_file"]:
             probs.append(("C09", "version-file-mismatch", f"{sn['cver']}/{sn['cver_file']} {sn['jver']}/{sn['jver_file']}"))
         if prev is not None:
